@@ -265,15 +265,10 @@ fn chain(backlog: u8, hops: &[Hop], after: u8) -> Result<Outcome, Failure> {
             sent += 1;
         }
     }
-    for _ in 0..after {
-        tx_x.send(tagged(sent)).map_err(|e| Failure::new("chain:send-failed", e.to_string()))?;
-        sent += 1;
-    }
-    drop(tx_x);
-    drop(travelled_tx);
-    // drain the finally held receiver: everything not consumed by intermediaries, then Disconnected
+    // The final holder starts its blocking receive loop *before* the last messages are sent: it
+    // really has to block on an empty, connected channel in between.
     let rx = holder_rx.take().unwrap();
-    let fin = sandbox::watched(move || {
+    let drain = std::thread::spawn(move || {
         let mut v = vec![];
         loop {
             match rx.recv() {
@@ -283,6 +278,16 @@ fn chain(backlog: u8, hops: &[Hop], after: u8) -> Result<Outcome, Failure> {
             }
         }
     });
+    for _ in 0..after {
+        sandbox::spin(30_000);
+        // (a failing receiver may already have gone away: the verdict comes from the drain result)
+        let _ = tx_x.send(tagged(sent));
+        sent += 1;
+    }
+    drop(tx_x);
+    drop(travelled_tx);
+    // everything not consumed by intermediaries, then Disconnected
+    let fin = sandbox::watched(move || drain.join().unwrap_or((vec![], Some("the draining thread panicked".into()))));
     let (rest, err) = match fin {
         Ok(x) => x,
         Err(h) => return Err(sandbox::hang_failure("chain:final-drain-hangs", "draining the transferred receiver after all senders were dropped", h)),
